@@ -369,9 +369,9 @@ def gen_format(rng, d):
         elif kind == 10:
             lines.append("%s MPLEX %s %s %d %d" % (nm, a, b, rng.randint(0, 4), rng.randint(0, 6)))
         elif kind == 11:
-            lines.append("%s INDIR %s ka" % (nm, a))
+            lines.append("%s INDIR %s %s" % (nm, a, rng.choice(["ka", "ka", "ka", "sa", "k", "st", b])))      # also inputs of the wrong kind
         elif kind == 12:
-            lines.append("%s SINDIR %s sa" % (nm, a))
+            lines.append("%s SINDIR %s %s" % (nm, a, rng.choice(["sa", "sa", "sa", "ka", "st", "k", b])))
         else:
             lines.append("/ALIAS %s %s" % (nm, rng.choice(names + [nm, "nosuch"])))
         if rng.random() < 0.25:
